@@ -10,7 +10,9 @@ package main
 //
 // Op (one line, one case):
 //   round id=<n> bs=<2|4|5> store=<mem|file> ca=<0..3> cb=<0..3> hb=<s> ri=<ms> split=<bytes|0> quiet=<ms> wait=<ms>
-//         start=<open|down> stop=<ia|ai> probe=<0|1> ev=<e1,e2,…>
+//         start=<open|down> stop=<ia|ai> probe=<0|1> dyn=<0|1> val=<0|1> ev=<e1,e2,…>
+//   dyn=1: session J is not configured, the acceptor creates it (DynamicSessions=Y) — as it does for every other
+//   well-formed Logon addressed to it; val=1: a ConnectionValidator refuses counterparties whose CompID starts with X
 //   events: sA<k> sB<k> (k submissions on the initiator / acceptor side)   p<k> (k on both sides concurrently)
 //           up (wait until both sides are logged on)   w<ms>   cut   hold holdAB holdBA   rel   down   open
 //           rsA rsB (stop the engine and recreate it on its store; file store only)
@@ -417,13 +419,26 @@ func (r *sockRound) startAcceptor() error {
 		if r.sid[1], err = s.AddSession(r.sessSettings("B"+r.id, "A"+r.id, r.kv["cb"])); err != nil {
 			return err
 		}
-		if r.sidJ, err = s.AddSession(r.sessSettings("B"+r.id, "J"+r.id, "0")); err != nil {
+		if r.kv["dyn"] == "1" {
+			g := s.GlobalSettings()
+			g.Set(config.DynamicSessions, "Y")
+			g.Set(config.LogoutTimeout, "1")
+			if r.bs == "FIXT.1.1" {
+				g.Set(config.DefaultApplVerID, "9")
+			}
+			if r.kv["store"] == "file" {
+				g.Set(config.FileStorePath, filepath.Join(r.dir, "B"+r.id))
+			}
+		} else if r.sidJ, err = s.AddSession(r.sessSettings("B"+r.id, "J"+r.id, "0")); err != nil {
 			return err
 		}
 		r.setB = s
 		var a *quickfix.Acceptor
 		if a, err = quickfix.NewAcceptor(sockApp{r, 1}, r.storeFactory(s), s, sockLogFactory{r, "B"}); err != nil {
 			return err
+		}
+		if r.kv["val"] == "1" {
+			a.SetConnectionValidator(sockValidator{})
 		}
 		if err = a.Start(); err == nil {
 			r.acc = a
@@ -438,6 +453,15 @@ func (r *sockRound) startAcceptor() error {
 	return err
 }
 
+type sockValidator struct{}
+
+func (sockValidator) Validate(_ net.Conn, id quickfix.SessionID) error {
+	if strings.HasPrefix(id.TargetCompID, "X") {
+		return fmt.Errorf("counterparty %s not welcome", id.TargetCompID)
+	}
+	return nil
+}
+
 func (r *sockRound) startInitiator() error {
 	s := quickfix.NewSettings()
 	st := r.sessSettings("A"+r.id, "B"+r.id, r.kv["ca"])
@@ -447,6 +471,7 @@ func (r *sockRound) startInitiator() error {
 	ri, _ := strconv.Atoi(r.kv["ri"])
 	st.Set(config.ReconnectInterval, sockDur(ri))
 	st.Set(config.LogonTimeout, "2")
+	st.Set(config.SocketTimeout, []string{"2", "2500ms"}[ri/100%2])
 	var err error
 	if r.sid[0], err = s.AddSession(st); err != nil {
 		return err
@@ -684,7 +709,7 @@ func parseSockOp(op string) (map[string]string, []string, bool) {
 		}
 		kv[x[:i]] = x[i+1:]
 	}
-	for _, k := range []string{"id", "bs", "store", "ca", "cb", "hb", "ri", "split", "quiet", "wait", "start", "stop", "probe", "ev"} {
+	for _, k := range []string{"id", "bs", "store", "ca", "cb", "hb", "ri", "split", "quiet", "wait", "start", "stop", "probe", "dyn", "val", "ev"} {
 		if _, ok := kv[k]; !ok {
 			return nil, nil, false
 		}
@@ -823,7 +848,11 @@ func (r *sockRound) event(e string) {
 	num := func(s string) int { return atoiD(s, 1) }
 	switch {
 	case e == "up":
-		r.waitUp(5 * time.Second)
+		if r.waitUp(5*time.Second) && r.acc != nil {
+			if _, ok := r.acc.RemoteAddr(r.sid[1]); !ok {
+				r.note("acceptor does not know the address of its logged-on counterparty")
+			}
+		}
 	case e == "cut":
 		r.px.cut()
 	case e == "hold":
@@ -1058,10 +1087,11 @@ func (s *sockSup) exec(op string) string {
 func hexFields(f []string) string { return hx([]byte(strings.Join(f, "|"))) }
 
 type sockGen struct {
-	r     *rng
-	bs    string
-	id    string
-	kinds []string
+	r        *rng
+	bs       string
+	id       string
+	kinds    []string
+	nextKind int
 }
 
 func (g *sockGen) hdr(kind, snd, tgt string, seq int, extra ...string) []string {
@@ -1073,6 +1103,9 @@ func (g *sockGen) hdr(kind, snd, tgt string, seq int, extra ...string) []string 
 // forged Logon with the expected number would simply BE the counterparty).
 func (g *sockGen) junk(real bool) string {
 	r := g.r
+	// the kinds rotate (start = a function of seed and round), so that a handful of rounds covers all of them
+	k := g.nextKind
+	g.nextKind++
 	A, B, J := "A"+g.id, "B"+g.id, "J"+g.id
 	logon := func(snd, tgt string, extra ...string) []string {
 		f := g.hdr("A", snd, tgt, 1, append([]string{"98=0", "108=30"}, extra...)...)
@@ -1095,7 +1128,7 @@ func (g *sockGen) junk(real bool) string {
 	if !real {
 		n = 6
 	}
-	switch r.intn(n) {
+	switch k % n {
 	case 0: // random bytes over the FIX alphabet
 		g.kinds = append(g.kinds, "junk.random")
 		k := 1 + r.intn(200)
@@ -1275,7 +1308,7 @@ func sockOpKinds(seed uint64, idx int, tier string, junk bool) (string, []string
 	r.u64()
 	quick := tier != "thorough"
 	bsi := []int{2, 4, 5}[r.intn(3)]
-	g := &sockGen{r: r, bs: bsNames[bsi], id: strconv.Itoa(idx)}
+	g := &sockGen{r: r, bs: bsNames[bsi], id: strconv.Itoa(idx), nextKind: int(seed%9) + 3*idx}
 	store := r.pick([]string{"mem", "file"})
 	hb := 1
 	if !quick && r.chance(1, 3) {
@@ -1308,7 +1341,7 @@ func sockOpKinds(seed uint64, idx int, tier string, junk bool) (string, []string
 		}
 		ev = append(ev, "up")
 		ev = g.sends(ev)
-		n := 2 + r.intn(3)
+		n := 3 + r.intn(2)
 		if !quick {
 			n = 2 + r.intn(6)
 		}
@@ -1349,7 +1382,11 @@ func sockOpKinds(seed uint64, idx int, tier string, junk bool) (string, []string
 		}
 		for i := 0; i < faults; i++ {
 			ev = g.sends(ev)
-			switch x := r.intn(100); {
+			x := r.intn(100)
+			if i == 0 { // the first fault of the rounds rotates through the kinds
+				x = []int{0, 30, 60, 70, 90}[(int(seed%5)+idx)%5]
+			}
+			switch {
 			case x < 25:
 				kind("fault.cut")
 				ev = append(ev, "cut")
@@ -1395,12 +1432,20 @@ func sockOpKinds(seed uint64, idx int, tier string, junk bool) (string, []string
 			ev = append(ev, "up", g.junk(true))
 		}
 	}
-	probe := "0"
+	probe, dyn, val := "0", 0, 0
 	if junk {
 		probe = "1"
+		dyn = []int{0, 1, 0}[(int(seed%3)+idx)%3]
+		val = []int{0, 0, 1, 1}[(int(seed%4)+idx)%4]
 	}
-	op := fmt.Sprintf("round id=%d bs=%d store=%s ca=%d cb=%d hb=%d ri=%d split=%d quiet=%d wait=10000 start=%s stop=%s probe=%s ev=%s",
-		idx, bsi, store, r.intn(4), r.intn(4), hb, ri, split, quiet, start, r.pick([]string{"ia", "ai"}), probe, strings.Join(ev, ","))
+	op := fmt.Sprintf("round id=%d bs=%d store=%s ca=%d cb=%d hb=%d ri=%d split=%d quiet=%d wait=10000 start=%s stop=%s probe=%s dyn=%d val=%d ev=%s",
+		idx, bsi, store, r.intn(4), r.intn(4), hb, ri, split, quiet, start, r.pick([]string{"ia", "ai"}), probe, dyn, val, strings.Join(ev, ","))
+	if dyn == 1 {
+		g.kinds = append(g.kinds, "acceptor.dynamic-sessions")
+	}
+	if val == 1 {
+		g.kinds = append(g.kinds, "acceptor.connection-validator")
+	}
 	g.kinds = append(g.kinds, "bs."+g.bs, "store."+store, fmt.Sprintf("split.%d", split))
 	return op, g.kinds
 }
